@@ -15,7 +15,7 @@ pub static DEF: CheckDef = CheckDef {
     replay,
     rule: "(a) write-target x probe matrix: every one of the 65536 addresses W is written (value different from what was read there before) on each of six cartridges (MBC1+RAM 8 and 128 banks, MBC1 8 KiB RAM, MBC3+RAM 32 banks, MBC3+RAM 72 banks, ROM-only), in chunks of 64 writes spread over all regions, and after every single write all 65536 addresses are read back and compared with the reference decode model (models::bus): storage bytes hold the last value written to them and nothing else changed, ROM reads equal the image under the bank mapping of the controller model, echo / 0xFEA0-0xFEFF / unassigned I/O keep reading their constant, readable I/O registers return their defined writable bits. (b) proptest histories of up to 48 writes biased to region boundaries, bank registers and I/O registers, same full read-back after every write, shrunk on failure. (c) fetch view: get_executable_memory_slice (both builds) and the translator's get_executable_memory_segment against data reads for every start address in ROM (several mapped banks), work RAM and high RAM. Non-trivial = a write whose value differs from the previous content followed by a complete 65536-address probe; distinct by (cartridge, W) in (a) and by hash of the history in (b).",
     assumptions: &[
-        "models::bus + models::mbc (written from the memory-map and controller documentation); no clock cycles are delivered, so device time stands still",
+        "models::bus + models::mbc (written from the memory-map and controller documentation); no clock cycles are delivered during a history, so device time stands still (every other history first switches the LCD on and runs to an arbitrary point of a frame)",
         "not asserted, as the property says: 0xFF01/0xFF02 reads, P1 bits 0-3 and 6-7, STAT bits 0-2 and 7, IF bits 5-7, TAC bits 3-7; what a write to LY or 0xFF46 makes that address read; initial contents and power-on register values (captured from the first observation)",
         "cartridge RAM is kept enabled (values written to 0x0000-0x1FFF get low nibble 0xA) and MBC3 RAM-bank selections stay within 0-3 (no RTC register), by construction of the generators",
         "a write to STAT or LYC may raise the STAT request bit in IF (not prescribed either way by C10)",
@@ -73,6 +73,12 @@ fn new_world(cfg: (u8, u8, u8)) -> World {
 fn reset_world(w: &mut World, seed: u64) -> Result<(), (String, String)> {
     w.m.reset_devices();
     w.m.fill_ram(seed);
+    // every other history starts with the LCD on and somewhere inside a frame (any line,
+    // any mode) and the divider away from zero; time then stands still as before
+    if seed & 1 == 1 {
+        w.m.write(0xff40, 0x91 | (seed >> 8) as u8);
+        w.m.run_clocks(4 * (splitmix(seed) % 17556) as usize);
+    }
     let kind = kind_for_type(w.cfg.0).unwrap();
     let ram = ram_bytes_for_code(w.cfg.2).unwrap();
     let rom = w.model.rom_image().to_vec();
